@@ -1,0 +1,87 @@
+//go:build verif
+
+package kcache
+
+import (
+	"context"
+	"time"
+
+	logutil "github.com/boz/go-logutil"
+	"github.com/boz/kcache/client"
+	"github.com/boz/kcache/filter"
+	metav1 "k8s.io/apimachinery/pkg/apis/meta/v1"
+	"k8s.io/apimachinery/pkg/runtime"
+)
+
+// Exported wrappers around in-package units, for the external verification
+// harness only (build tag verif). Nothing here changes behaviour.
+
+type VerifCache interface {
+	CacheReader
+	Sync([]metav1.Object) ([]Event, error)
+	Update(Event) ([]Event, error)
+	Refilter([]metav1.Object, filter.Filter) ([]Event, error)
+	Done() <-chan struct{}
+	Error() error
+}
+
+type verifCache struct{ cache }
+
+func (c verifCache) Sync(l []metav1.Object) ([]Event, error) { return c.cache.sync(l) }
+func (c verifCache) Update(e Event) ([]Event, error)         { return c.cache.update(e) }
+func (c verifCache) Refilter(l []metav1.Object, f filter.Filter) ([]Event, error) {
+	return c.cache.refilter(l, f)
+}
+
+func VerifNewCache(ctx context.Context, log logutil.Log, stopch <-chan struct{}, f filter.Filter) VerifCache {
+	return verifCache{newCache(ctx, log, stopch, f)}
+}
+
+type VerifListResult struct {
+	List runtime.Object
+	Err  error
+}
+
+type VerifLister interface {
+	// Result receives the next list result, or reports false once the lister is done.
+	Result() (VerifListResult, bool)
+	Done() <-chan struct{}
+	Error() error
+}
+
+type verifLister struct{ l *_lister }
+
+func (v verifLister) Result() (VerifListResult, bool) {
+	select {
+	case r := <-v.l.Result():
+		return VerifListResult{r.list, r.err}, true
+	case <-v.l.Done():
+		return VerifListResult{}, false
+	}
+}
+func (v verifLister) Done() <-chan struct{} { return v.l.Done() }
+func (v verifLister) Error() error          { return v.l.Error() }
+
+func VerifNewLister(ctx context.Context, log logutil.Log, stopch <-chan struct{}, period time.Duration, c client.ListClient) VerifLister {
+	return verifLister{newLister(ctx, log, stopch, period, c)}
+}
+
+type VerifTicker interface {
+	Next() <-chan int
+	Reset()
+	Stop()
+	Done() <-chan struct{}
+}
+
+func VerifNewTicker(period time.Duration, fuzz float64) VerifTicker {
+	return newTicker(period, fuzz)
+}
+
+func VerifListResourceVersion(obj runtime.Object) (string, error) { return listResourceVersion(obj) }
+func VerifExtractList(obj runtime.Object) ([]metav1.Object, error) { return extractList(obj) }
+
+const (
+	VerifWatchRetryDelay      = watchRetryDelay
+	VerifDefaultRefreshPeriod = defaultRefreshPeriod
+	VerifDefaultRefreshFuzz   = defaultRefreshFuzz
+)
